@@ -41,6 +41,8 @@ pub struct RefProgram {
     pub labels: Vec<(String, usize)>,
     pub unrecognised: Vec<String>,
     pub handler_labels: Vec<String>,
+    /// where every label is written: (name, file, zero-based line)
+    pub label_sites: Vec<(String, String, usize)>,
 }
 
 fn is_zero(r: &str) -> bool {
@@ -84,6 +86,7 @@ pub fn parse(pasted: &[PastedLine]) -> RefProgram {
                 break;
             }
             pending.push(name.to_string());
+            p.label_sites.push((name.to_string(), pl.file.clone(), pl.line));
             t = t[c + 1..].trim();
         }
         if t.is_empty() {
@@ -119,9 +122,12 @@ pub fn parse(pasted: &[PastedLine]) -> RefProgram {
             "jal" if ops.len() == 2 && is_zero(&ops[0]) => Flow::Jump(ops[1].clone()),
             "ecall" if ops.is_empty() => Flow::Ecall,
             m if BR3.contains(&m) && ops.len() == 3 => {
-                let both_zero = is_zero(&ops[0]) && is_zero(&ops[1]);
-                let always = both_zero && matches!(m, "beq" | "bge" | "bgeu" | "ble" | "bleu");
-                let never = both_zero && !always;
+                // decided statically only where the machine's answer does not depend on a register:
+                // both operands zero, or an unsigned comparison against zero
+                let (z0, z1) = (is_zero(&ops[0]), is_zero(&ops[1]));
+                let both_zero = z0 && z1;
+                let always = (both_zero && matches!(m, "beq" | "bge" | "bgeu" | "ble" | "bleu")) || (m == "bgeu" && z1) || (m == "bleu" && z0);
+                let never = (both_zero && matches!(m, "bne" | "blt" | "bltu" | "bgt" | "bgtu")) || (m == "bltu" && z1) || (m == "bgtu" && z0);
                 Flow::Branch { target: ops[2].clone(), always, never }
             }
             m if BR2.contains(&m) && ops.len() == 2 => {
